@@ -62,6 +62,9 @@ type kase struct {
 	CutsA     []int    `json:"cutsA"`
 	CutsB     []int    `json:"cutsB"`
 	Restart   []bool   `json:"restart,omitempty"` // one flag per boundary of CutsB (stateful run)
+	// WriteFail: one flag per batch of CutsB: the state file cannot be written while that batch is flushed (a
+	// directory sits at its path); a later flush succeeds and no restart happens in between, so nothing may be lost
+	WriteFail []bool `json:"state_file_write_fails,omitempty"`
 }
 
 func (r rec) accessLog(i int) common.AccessLog {
@@ -158,16 +161,17 @@ func (s *spyTree) Lookup(url string) urltree.LookupResult[common.EmptyStruct] {
 }
 
 type runInfo struct {
-	batches   int // non-empty batches processed
-	rekeys    int // batches after which a previously existing endpoint key had disappeared (re-keying)
-	restarts  int // restarts performed while the state was non-empty
-	resets    int // restarts performed at all (each one rebuilds the URL tree from the known endpoints)
-	silent    int // convergences of the tree inside NormalizeURL (not reported to ConvergeAggregation)
-	unseen    int // ... of which on a URL of the batch that the batch's convergence pre-pass never inserted
-	loud      int // convergences reported to ConvergeAggregation
-	miss      int // NormalizeURL lookups that missed the URL just inserted
-	rejectErr error
-	rejected  [][2]int // batches the plugin refused with an error (their records are not in the statistics)
+	batches    int // non-empty batches processed
+	rekeys     int // batches after which a previously existing endpoint key had disappeared (re-keying)
+	restarts   int // restarts performed while the state was non-empty
+	resets     int // restarts performed at all (each one rebuilds the URL tree from the known endpoints)
+	silent     int // convergences of the tree inside NormalizeURL (not reported to ConvergeAggregation)
+	unseen     int // ... of which on a URL of the batch that the batch's convergence pre-pass never inserted
+	writeFails int // flushes whose state-file write was made to fail
+	loud       int // convergences reported to ConvergeAggregation
+	miss       int // NormalizeURL lookups that missed the URL just inserted
+	rejectErr  error
+	rejected   [][2]int // batches the plugin refused with an error (their records are not in the statistics)
 }
 
 // hasEmptySegment: the URL has an empty host label or path segment (`//`), which
@@ -308,7 +312,25 @@ func runStateful(c kase, cuts []int, restart []bool, dir string, check func(a *d
 			us = append(us, l.URL)
 		}
 		tree.begin(us)
-		if err := discovery.Run(st, logs, tree); err != nil {
+		failWrite := bi < len(c.WriteFail) && c.WriteFail[bi] && len(logs) > 0
+		if failWrite {
+			_ = os.Remove(path)
+			if err := os.Mkdir(path, 0o755); err != nil {
+				return nil, info, fmt.Errorf("cannot block the state file: %w", err)
+			}
+		}
+		err := discovery.Run(st, logs, tree)
+		if failWrite {
+			_ = os.Remove(path)
+			info.writeFails++
+			if err == nil {
+				return nil, info, fmt.Errorf("Run reported success although the state file could not be written")
+			}
+			// the flush failed on the way to the disk: its records stay in memory and must reach the next file
+			info.batches++
+			continue
+		}
+		if err != nil {
 			info.rejected = append(info.rejected, b)
 			info.rejectErr = fmt.Errorf("Run(batch %v): %w", b, err)
 			continue
@@ -944,6 +966,32 @@ func genCase(t *rapid.T, g genOpts) kase {
 		c.Restart = make([]bool, len(c.CutsB))
 		for i := range c.Restart {
 			c.Restart[i] = rapid.IntRange(0, 1).Draw(t, "restart") == 1
+		}
+	}
+	if len(c.CutsB) > 0 && rapid.IntRange(0, 3).Draw(t, "write-failure") == 0 {
+		bs := batches(n, c.CutsB)
+		bi := rapid.IntRange(0, len(bs)-1).Draw(t, "failing-flush")
+		// only where the statement is unambiguous: no record of the failing flush is refused for another reason,
+		// a later flush with records succeeds, and the plugin is not restarted before that one
+		ok, later := bs[bi][1] > bs[bi][0], -1
+		for i := bs[bi][0]; i < bs[bi][1]; i++ {
+			ok = ok && !strings.Contains(c.Recs[i].U, "//")
+		}
+		for j := bi + 1; j < len(bs) && later < 0; j++ {
+			clean := bs[j][1] > bs[j][0]
+			for i := bs[j][0]; i < bs[j][1]; i++ {
+				clean = clean && !strings.Contains(c.Recs[i].U, "//")
+			}
+			if clean {
+				later = j
+			}
+		}
+		if ok && later > 0 {
+			c.WriteFail = make([]bool, len(bs))
+			c.WriteFail[bi] = true
+			for j := bi; j < later && j < len(c.Restart); j++ {
+				c.Restart[j] = false
+			}
 		}
 	}
 	return c
